@@ -69,7 +69,62 @@ func runC07(c *Ctx) {
 	}
 	runs := CallSites(ens, runObj)
 	bl := LoopsOver(ens, VField(fBlocked))
-	if len(runs) == 1 && len(bl) == 1 {
+	// the predicate loop may be a boolean helper of Ensure (isBlocked(t, running)): then the call of the
+	// helper is where the predicates are consulted, and its list argument is what they see
+	var blockedHelperCall ssa.CallInstruction
+	blockedListArg := -1
+	if len(bl) == 0 {
+		for _, hc := range localCalls(ens) {
+			hl := LoopsOver(hc.h, VField(fBlocked))
+			if len(hl) != 1 || hc.cc.Parent() != ens {
+				continue
+			}
+			// which parameter is handed on to the predicates as the running list
+			for _, pc := range CallsMatching(hc.h, DynCallOf(VIs(hl[0].Elem))) {
+				a := pc.Common().Args
+				if len(a) == 2 {
+					for j, hp := range hc.h.Params {
+						if Strip(a[1]) == ssa.Value(hp) || a[1] == ssa.Value(hp) {
+							blockedListArg = j
+						}
+					}
+				}
+			}
+			if blockedListArg >= 0 {
+				blockedHelperCall = hc.cc
+				c.touch(hc.h)
+			}
+		}
+	}
+	if len(runs) == 1 && blockedHelperCall != nil {
+		rc := runs[0]
+		tval := CallArgs(rc)[0]
+		q := ReachQ{Fn: ens, From: LocOf(rc),
+			CutInstr: func(in ssa.Instruction) bool {
+				ci, ok := isAppend(in)
+				if !ok {
+					return false
+				}
+				for _, e := range VarargElems(ci.Call.Args[1]) {
+					if e != nil && TaskKey(e) == TaskKey(tval) {
+						return true
+					}
+				}
+				return false
+			},
+			Sink: func(in ssa.Instruction) bool { return in == blockedHelperCall.(ssa.Instruction) }}
+		r := q.Run()
+		c.Check(!r.Found, "overlord/state.(*TaskRunner).Ensure#started-task-joins-running", rc.Pos(), "a task started in this pass is appended to `running` before any predicate is consulted again", "after r.run(t) a predicate can be consulted without t on the running list: two tasks of an exclusive class could start in the same pass; path: "+P.PathString(r.Path))
+		okList := false
+		for _, l := range phiLeavesOf(blockedHelperCall.Common().Args[blockedListArg]) {
+			if ci, ok := l.(*ssa.Call); ok {
+				if bi, ok := ci.Call.Value.(*ssa.Builtin); ok && bi.Name() == "append" {
+					okList = true
+				}
+			}
+		}
+		c.Check(okList, "overlord/state.(*TaskRunner).Ensure#predicates-see-running", blockedHelperCall.Pos(), "predicates receive the accumulated running list", "predicates are not given the accumulated running list")
+	} else if len(runs) == 1 && len(bl) == 1 {
 		rc := runs[0]
 		tval := CallArgs(rc)[0]
 		// after run(t): running = append(running, t) before the next iteration
